@@ -82,7 +82,9 @@ fn exercise(store: &AnnotationStore) -> String {
             Err(_) => return "parseerr".into(),
         }
     }
-    if store.to_json_string(&Config::default()).is_err() {
+    // serialise with the store's own configuration (working directory of stand-off files), as JSON
+    let cfg = store.config().clone().with_dataformat(DataFormat::Json { compact: false });
+    if store.to_json_string(&cfg).is_err() {
         return "serialiseerr".into();
     }
     let _ = n;
